@@ -13,6 +13,7 @@ ATOM_FORMS = [
     (("string",), "like", None), (("string",), "closure", None), (("strref",), "string", None), (("strref",), "eq", None),
     (("bool",), "simple", None), (("bool",), "eq", None), (("char",), "simple", None), (("char",), "range", "closed"),
     (("f64",), "gt", None), (("f64",), "range", "half"), (("f64",), "eq", None), (("po",), "lt", None), (("po",), "ge", None),
+    (("int", "i32"), "closure", "typed"), (("f64",), "closure", "typed"),
 ]
 COMPOUND = ["option", "vec", "tuple", "struct", "enum", "result", "set", "map"]
 
